@@ -19,6 +19,18 @@ def main(tier, seed):
     base += families.examples(s=120, names={'hello', 'max', 'factor', 'optional_max'})
     for w in ([3] if quick else [3, 4, 8]):
         base += families.generated(seed + w, 10 if quick else 60, w=w, inputs=2, family='gen_w%d' % w)
+    # stack overflow is undefined behaviour in an unchecked build too: keep only cases whose CHECKED image runs
+    # without the stack_overflow flag (selection by the accelerator VM; the verdict stays TLC's)
+    from hv import hidc_api, svm, sasm
+    fits = []
+    for it in base:
+        try:
+            vm = svm.VM(sasm.Program(hidc_api.compile_src(it.src, w=it.w, s=it.s), it.args), max_steps=20000, full_cycle=False).run()
+            if 'stack_overflow' not in vm.flags():
+                fits.append(it)
+        except Exception:
+            fits.append(it)
+    base = fits
     items = []
     for it in base:
         items.append(runner.Item(it.key + ('unchecked',), it.src, it.args, w=it.w, s=it.s, unchecked=True,
